@@ -458,16 +458,12 @@ def r056(report, lm):
     return rule
 
 
-def run(report, index, tier):
+def rules(report, index):
+    """the division / regex rules (also part of C03: the reading of `/`
+    decides which texts are accepted)"""
     M = models(index)
     g, lm = M.grammar, M.lexmodel
     pm = g.parser_module
-    report.explanation = (
-        'The regex/division decision is compared with the terminal '
-        'adjacency relation of the grammar (reserved words split by role), '
-        'and the decision expression of Lexer._token is evaluated '
-        'abstractly over token contexts x marker runs using the transition '
-        'functions extracted from the lexer source.')
     slash_tokens, prevs, table = relex_table(report, g, lm, pm)
     relex_prev = {prev for (cur, prev), (calls, ret) in table.items()
                   if calls and cur == 'DIV'}
@@ -477,6 +473,16 @@ def run(report, index, tier):
     r054(report, g, lm, pm, both, slash_tokens, prevs, table)
     r055(report, lm)
     r056(report, lm)
+
+
+def run(report, index, tier):
+    report.explanation = (
+        'The regex/division decision is compared with the terminal '
+        'adjacency relation of the grammar (reserved words split by role), '
+        'and the decision expression of Lexer._token is evaluated '
+        'abstractly over token contexts x marker runs using the transition '
+        'functions extracted from the lexer source.')
+    rules(report, index)
     report.not_decided.append(
         'paren-stack bookkeeping for arbitrarily deep nesting beyond the '
         'explored contexts (runtime stack discipline)')
